@@ -65,6 +65,7 @@ type Scenario struct {
 	NoTimeDev        bool            `json:"no_time_dev,omitempty"` // do not offer "time" as a deviation
 	PartitionTimeout time.Duration   `json:"partition_timeout,omitempty"`
 	OnlyInst         []string        `json:"only_inst,omitempty"` // deviations only on ops of these instances
+	FaultLabels      []string        `json:"fault_labels,omitempty"` // err/lose/hang deviations only on ops with these labels
 	DevFrom          time.Duration   `json:"dev_from,omitempty"`  // deviations only at/after this virtual time
 	DevUntil         time.Duration   `json:"dev_until,omitempty"`
 
